@@ -4,7 +4,10 @@ environments, several concurrent calls on one environment) are run one by one an
 while background goroutines keep creating inheritable descriptors under ForkLock.RLock (the protocol of the model).  Every
 workload must produce the same verdict, exit value and descriptor table (reported by the program itself) both times; no run
 may hang.  Runs that are killed by their runner (cancelled spinning programs, programs that die of a signal, tracees with
-children) are mixed in, because their teardown is what could reach other runs."""
+children) are mixed in, because their teardown is what could reach other runs.
+Launch windows: the launching thread of a run is held after every system call of its launch (forkexec starts of every configuration,
+user namespaces with id maps of many shapes, namespace runs, traced runs, a container environment) and a second run is launched at
+that very point by another goroutine: it must get the descriptor table it gets alone (launch_windows below)."""
 import json
 import os
 import re
@@ -14,7 +17,163 @@ FINISH = dict(level="proof", rule=(
     "6 (thorough 60) sets of 16 workloads drawn from {ptrace, namespace, container on one of 3 environments} x {descriptor-table "
     "report + exit n, exit n, death by signal n, spinning program cancelled after 40..120 ms, process tree cancelled}; 8 background "
     "goroutines holding inheritable descriptors under ForkLock.RLock.  Non-trivial: a set with all three runners, two calls on "
-    "one environment and a cancelled run; distinct = distinct sets."))
+    "one environment and a cancelled run; distinct = distinct sets.  Launch windows: 30 (thorough 68) launches of the forkexec / namespace / "
+    "ptrace / container launchers stepped one system call at a time, a second run (forkexec, os/exec, namespace run) launched at every point "
+    "where the descriptor table of the process changed and the fork lock is free."))
+
+
+# ---- launch windows, one system call at a time ------------------------------------------------------------------------------------
+# The launches whose windows are explored (harness h_c17step): forkexec starts of every configuration and outcome (those of h_fdtrace,
+# the id map shapes, and drawn ones: namespace sets with and without a user namespace, id maps of 1..6 extents, callbacks, failing
+# programs), whole namespace runs, whole traced runs, a container environment built, used and destroyed.
+def step_cases(c):
+    r = c.rng("windows")
+    fe = lambda name, **kw: dict({"name": name, "launcher": "forkexec", "prog": "exit0"}, **kw)
+    um = [[0, 0, 70000]]
+    bad = [[0, 0, 10], [5, 100, 10]]
+    cases = [
+        fe("ok"), fe("ok_sync", sync="accept"), fe("enoent", prog="enoent"), fe("enoent_sync", prog="enoent", sync="accept"), fe("enoexec", prog="enoexec"),
+        fe("etxtbsy", prog="etxtbsy"), fe("chdir", baddir=True), fe("chdir_sync", baddir=True, sync="accept"), fe("refuse", sync="refuse"), fe("badfile", badfile=True),
+        fe("userns", clone=["user"], uid=um, gid=um), fe("userns_enoent", prog="enoent", clone=["user"], uid=um, gid=um),
+        fe("userns_badmap", clone=["user"], uid=bad, gid=um), fe("userns_refuse", clone=["user"], uid=um, gid=um, sync="refuse"),
+        fe("ns_enoent", prog="enoent", clone=["ns", "pid"]), fe("seccomp_enoent", prog="enoent", seccomp=True), fe("ptrace_enoent", prog="enoent", ptrace=True),
+        fe("ptrace_chdir", ptrace=True, seccomp=True, baddir=True),
+        # id maps of several shapes and none
+        fe("idmap_default", clone=["user"]),
+        fe("idmap_two_extents", clone=["user"], uid=[[0, 1000, 1], [1, 100000, 65536]], gid=[[0, 3000, 2], [5, 20000, 10]]),
+        fe("idmap_gid_only", clone=["user"], gid=[[0, 65534, 1], [1, 1, 1], [2, 2, 1], [10, 1000000, 1000]], setgroups=True),
+    ] + ([] if c.quick() else [
+        fe("idmap_whole_range", clone=["user"], uid=[[0, 0, 4294967295]]),
+        fe("idmap_five_extents", clone=["user"], uid=[[i, 7 + i, 1] for i in range(5)], gid=[[0, 123456789, 10]]),
+    ]) + [
+        {"name": "namespace_run", "launcher": "unshare", "prog": "exit0"},
+        {"name": "namespace_run_sync_enoent", "launcher": "unshare", "prog": "enoent", "sync": "accept"},
+        {"name": "traced_run", "launcher": "ptrace", "prog": "exit0"},
+        {"name": "traced_run_enoent", "launcher": "ptrace", "prog": "enoent"},
+        {"name": "container_build_use_destroy", "launcher": "container"},
+    ]
+
+    def extents():
+        n, at, host, res = r.randint(1, 6), 0, r.randint(0, 5000), []
+        for _ in range(n):
+            size = r.choice([1, 1, 2, 10, 1000, 65536])
+            res.append([at, host, size])
+            at, host = at + size + r.choice([0, 0, 3]), host + size + r.choice([0, 7, 100000])
+        return res
+    for k in range(4 if c.quick() else 40):
+        others = [f for f in ("ns", "pid", "net", "ipc", "uts", "cgroup") if r.random() < 0.35]
+        user = r.random() < 0.75
+        kw = {"clone": (["user"] if user else []) + others}
+        if user:
+            kw["uid"] = r.choice([None, extents(), extents()])
+            kw["gid"] = r.choice([None, extents(), extents()])
+            kw["setgroups"] = r.random() < 0.3
+        kw["sync"] = r.choice(["", "", "accept", "refuse"])
+        kw["prog"] = r.choice(["exit0", "exit0", "enoent"])
+        if r.random() < 0.2:
+            kw["seccomp"] = True
+        cases.append(fe("drawn%d" % k, **kw))
+    return cases
+
+
+KIND_NAME = {0: "forkexec.Runner.Start", 1: "os/exec (standard library)", 2: "namespace run (runner/unshare)"}
+
+
+def launch_windows(c, env):
+    """Two runs of one process, every interleaving at system call granularity of the launch of the first with the clone of the second:
+    the launching thread of run A is held (ptrace) after each system call of its launch; while it is held, run B -- a program that
+    reports the descriptor table it was started with -- is launched by another goroutine of the same process (unless the held thread
+    owns the fork lock: then no clone can happen at that point).  B must get what it gets when launched while nothing else goes on:
+    descriptors 0, 1, 2 and nothing else, and its own exit value; A must end as it ends when it is not interrupted."""
+    exe = c.build_harness("h_c17step")
+    c.build_probe("c17fds")
+    wdir = c.tmpdir("windows")
+    cases = step_cases(c)
+    cpath = os.path.join(wdir, "cases.json")
+    with open(cpath, "w") as f:
+        json.dump(cases, f)
+    e = dict(env, VERIF_SCRATCH=wdir, C17STEP_CASES=cpath, C17STEP_ROT=str(c.seed), C17STEP_BUDGET_S="150" if c.quick() else "900")
+    if not c.quick():
+        e["C17STEP_ALL"] = "1"
+    pr = subprocess.run([exe], env=e, stdout=subprocess.PIPE, stderr=subprocess.PIPE, timeout=1200)
+    lines = [ln for ln in pr.stdout.decode(errors="replace").splitlines() if ln.startswith("{")]
+    if pr.returncode != 0 or not lines:
+        raise RuntimeError("h_c17step: rc %d %s" % (pr.returncode, pr.stderr.decode(errors="replace")[-400:]))
+    o = json.loads(lines[-1])
+    if "harness_err" in o:
+        raise RuntimeError("h_c17step: " + o["harness_err"])
+    for m in o["info"]:
+        if "harness_err" in m or "harness_err" in (m.get("res") or {}):
+            raise RuntimeError("h_c17step (host process): %s" % m)
+    proj = lambda out: [e3[:3] for e3 in json.loads(out)]
+    # the second run while nothing else goes on (twice per launcher): this is "alone"
+    alone = {}
+    for b in o["baseline"]:
+        if "stdout" not in b or b.get("error") or b.get("exit") != 7:
+            raise RuntimeError("h_c17step: the second run does not work on its own: %s" % b)
+        t = proj(b["stdout"])
+        if alone.setdefault(b["kind"], t) != t or t != [[0, 0, 0], [1, 1, 0], [2, 1, 0]]:
+            raise RuntimeError("h_c17step: the second run on its own does not see descriptors 0, 1, 2 only: %s" % b)
+    if sorted(alone) != [0, 1, 2]:
+        raise RuntimeError("h_c17step: no second runs alone (%s)" % (o.get("aborted") or "?"))
+    res_alone = {m["i"]: m["res"] for m in o["info"] if m["t"] == "alone"}
+    res_held = {m["i"]: m["res"] for m in o["info"] if m["t"] == "result"}
+    nprobe = nlocked = nskipped = 0
+    for i, rec in enumerate(o["cases"]):
+        x = cases[i]
+        c.count(("window", json.dumps(x, sort_keys=True)), nontrivial=True, klass="launch-window." + x["launcher"])
+        reported = False
+        for st in rec["steps"]:
+            p = st["probe"]
+            if "locked" in p:
+                nlocked += 1
+                continue
+            if "skipped" in p or "stdout" not in p:
+                nskipped += 1
+                continue
+            nprobe += 1
+            c.evaluations += 1
+            try:
+                tab = json.loads(p["stdout"])
+            except ValueError:
+                tab = None
+            ok = tab is not None and [t[:3] for t in tab] == alone[p["kind"]] and p.get("exit") == 7 and not p.get("error")
+            if ok or reported:
+                continue
+            reported = True         # one replay per launch: the first point of the window at which the second run differs
+            extra = [t for t in (tab or []) if t[0] > 2]
+            where = "%s system call %d of the launch: %s" % (st["at"], st["n"] + (1 if st["at"] == "before" else 0), st["call"])
+            c.finding_or_violation(
+                {"kind": "independence", "what": "a run launched while another run of the process is in the middle of its launch does not get the descriptor table "
+                 "(or result) it gets alone: it receives descriptors of the other run's launch" if extra else
+                 "a run launched while another run of the process is in the middle of its launch does not get the descriptor table (or result) it gets alone",
+                 "first_run": x["launcher"], "user_namespace": "user" in (x.get("clone") or []) or x["launcher"] in ("unshare", "container")},
+                {"first_run_A": x, "system_calls_of_A_s_launching_thread_so_far": rec["calls"][:st["n"]],
+                 "second_run_B": {"launcher": KIND_NAME[p["kind"]], "program": "probe_c17fds 7 (prints its descriptor table [fd, access mode, close-on-exec, link], exits 7)",
+                                  "launched": where + "  (A's launching thread held there; the fork lock is free)"},
+                 "expected_B_alone": {"exit": 7, "descriptors [fd, access mode, close-on-exec]": json.dumps(alone[p["kind"]])},
+                 "observed_B": {"exit": p.get("exit"), "error": p.get("error"), "descriptors [fd, access mode, close-on-exec, link]": p["stdout"][:1500],
+                                "descriptors_that_are_not_its_own": [json.dumps(t) for t in extra]},
+                 "descriptor_table_of_the_host_process_at_that_point [fd, link, close-on-exec]": [json.dumps(t) for t in st.get("host_fds") or []],
+                 "later_points_of_this_launch_with_the_same_deviation": sum(
+                     1 for s2 in rec["steps"] if "stdout" in s2["probe"] and s2["probe"]["stdout"].startswith("[[") and
+                     [t[:3] for t in json.loads(s2["probe"]["stdout"])] != alone[s2["probe"]["kind"]]) - 1},
+                klass="launch-window")
+        if i in res_held and res_held[i] != res_alone.get(i):
+            c.finding_or_violation({"kind": "independence", "what": "a launch ends differently when other runs of the process are launched between its system calls", "first_run": x["launcher"]},
+                                   {"first_run_A": x, "result_uninterrupted": res_alone.get(i), "result_with_second_runs_launched_in_its_window": res_held[i],
+                                    "system_calls_of_A_s_launching_thread": rec["calls"]}, klass="launch-window-result")
+    c.cov["launch_windows_stepped"] = len(o["cases"])
+    c.cov["second_runs_launched_inside_a_window"] = nprobe
+    c.cov["window_points_with_fork_lock_held"] = nlocked
+    c.cov["window_points_with_unchanged_descriptor_table"] = o.get("points_with_unchanged_table", 0)
+    c.cov["window_points_not_tried"] = nskipped
+    if o.get("aborted"):
+        c.cov["launch_windows_cut_short"] = o["aborted"]
+    if len(o["cases"]) < len(cases) and not o.get("aborted"):
+        raise RuntimeError("h_c17step: %d of %d launches stepped and no reason given" % (len(o["cases"]), len(cases)))
+    if nprobe < 60:
+        raise RuntimeError("h_c17step: only %d second runs were launched inside windows (%s)" % (nprobe, o.get("aborted") or "late: %s" % o.get("late")))
 
 
 def run(c):
@@ -68,7 +227,7 @@ def run(c):
             ws[9] = {"kind": "container", "env": 1, "prog": ["sleep", "3500"], "_long": True}
             ws[10] = {"kind": "ping", "env": 1, "delay_ms": 300, "prog": ["-"]}
         cases.append({"id": si, "envs": 3, "noise": 8, "workloads": [{k: v for k, v in w.items() if not k.startswith("_")} for w in ws]})
-    obs = c.run_harness(exe, cases, env=env, timeout=1700)
+    obs = c.run_harness(exe, cases, env=env, timeout=1700 if c.quick() else 7200)     # (60 sets on a loaded machine take more than 1700 s)
     for x, o in zip(cases, obs):
         if "harness_err" in o:
             raise RuntimeError(o["harness_err"])
@@ -129,9 +288,26 @@ def run(c):
     tog_bad = [x for x in eo[1]["outcomes"] if x != "exit 7"]
     if alone_bad:
         raise RuntimeError("a freshly written program does not even start on its own: %s" % alone_bad[:3])
-    if tog_bad:
+    # The project answers ETXTBSY by asking again for 50 ms; the other run's child holds the file for about 10 ms.  On a machine with more
+    # runnable processes than cores the hold itself grows beyond that budget, so a failure is re-tried, and with the machine overloaded
+    # the scenario is inconclusive (counted in the evidence) rather than a violation.
+    tries = 1
+    while tog_bad and tries < 3:
+        tries += 1
+        again = c.run_harness(exe, [{"id": 1, "mode": "etxtbsy", "iters": iters, "with_b": True}], env=env, timeout=600)[0]
+        if "harness_err" in again:
+            raise RuntimeError(again["harness_err"])
+        eo[1] = again
+        tog_bad = [x for x in again["outcomes"] if x != "exit 7"]
+    c.cov["fresh_executable_attempts"] = tries
+    overloaded = float(open("/proc/loadavg").read().split()[0]) > 0.9 * (os.cpu_count() or 1)
+    if tog_bad and overloaded:
+        c.cov["fresh_executable_inconclusive_machine_overloaded"] = {"loadavg": open("/proc/loadavg").read().strip(), "outcomes": eo[1]["outcomes"][:6]}
+    elif tog_bad:
         c.finding_or_violation({"kind": "independence", "what": "a run of a freshly written program (exec descriptor) fails because another run was being launched while the file was written",
                                 "error": tog_bad[0][:60]}, {"outcomes_alone": eo[0]["outcomes"], "outcomes_next_to_the_other_run": eo[1]["outcomes"]}, klass="etxtbsy")
+    # ---- every launch window, one system call at a time: a second run cloned at each point of the launch of a first
+    launch_windows(c, env)
     # ---- the launcher's own descriptor discipline, system call by system call: a start (successful or failing at any stage) closes exactly the descriptors
     # it created, each once; a close of a number it does not hold is a close of whatever another run of the process got under that number meanwhile
     fexe = c.build_harness("h_fdtrace")
